@@ -40,7 +40,12 @@ type c15Case struct {
 	// Missing: the target does not exist. The lookup fails (includeIfExists: renders nothing), but what
 	// Loader and Cache are asked for is still nothing but the canonical name plus the configured extensions.
 	Missing bool `json:"missing,omitempty"`
+	// Twin (include only): in the same Execute a second template, in another directory, includes the same
+	// spelling; each include resolves against its own file.
+	Twin bool `json:"twin,omitempty"`
 }
+
+const c15TwinRef = "/tw/in/r"
 
 const c15Entry = "/hop/entry"
 
@@ -167,6 +172,10 @@ func genC15(t *rapid.T) c15Case {
 	if len(c.Others) == 0 && rapid.IntRange(0, 4).Draw(t, "missing") == 0 {
 		c.Missing = true
 	}
+	if (c.Via == "include" || c.Via == "include-computed") && !c.Missing && rapid.IntRange(0, 2).Draw(t, "twin") == 0 {
+		c.Twin = true
+		return c
+	}
 	if c.Via != "get" {
 		c.Hop = rapid.SampledFrom([]string{"", "", "extends", "import"}).Draw(t, "hop")
 		if c.Hop == "import" && c.Via == "extends" {
@@ -183,6 +192,14 @@ func (c c15Case) referrer() string {
 
 // referrerFile is where the referring template is stored: its name plus a configured extension.
 func (c c15Case) referrerFile() string { return c.referrer() + c.Exts[len(c.Exts)-1] }
+
+// twinCanonical: what the same spelling means in the twin referrer.
+func (c c15Case) twinCanonical(spelling string) string {
+	if strings.HasPrefix(spelling, "/") {
+		return normPath(spelling)
+	}
+	return normPath(filepath.ToSlash(filepath.Dir(c15TwinRef)) + "/" + spelling)
+}
 
 // canonical is the independently computed name the Set must request.
 func (c c15Case) canonical(spelling string) string {
@@ -242,6 +259,15 @@ func (c c15Case) files(spelling string) map[string]string {
 	if c.Missing {
 		delete(files, target)
 	}
+	if c.Twin {
+		last := c.Exts[len(c.Exts)-1]
+		tt := c.twinCanonical(spelling) + c.Ext
+		if _, same := files[tt]; !same {
+			files[tt] = "TWIN"
+		}
+		files[c15TwinRef+last] = files[ref]
+		files[c15Entry+last] = fmt.Sprintf("{{include %q}}|{{include %q}}", c.referrer(), c15TwinRef)
+	}
 	switch c.Hop {
 	case "extends":
 		files[c15Entry+c.Exts[len(c.Exts)-1]] = fmt.Sprintf("{{extends %q}}entry junk", c.referrer())
@@ -297,7 +323,7 @@ func (c c15Case) run(spelling string, tmp string) (trace []traceEv, out jetrun.O
 	if c.Via == "get" {
 		entry = spelling
 	}
-	if c.Hop != "" {
+	if c.Hop != "" || c.Twin {
 		entry = c15Entry
 	}
 	t, o := jetrun.Get(s, entry)
@@ -426,6 +452,17 @@ func judgeC15(c c15Case) (v core.Verdict) {
 	if c.Missing {
 		v.Label("target-missing")
 	}
+	if c.Twin {
+		v.Label("same-spelling-included-from-two-directories")
+		tt := c.twinCanonical(c.Spelling) + c.Ext
+		last := c.Exts[len(c.Exts)-1]
+		for _, other := range []string{c.referrerFile(), c15TwinRef + last, c15Entry + last} {
+			if tt == other || target == other || strings.HasPrefix(other, tt+"/") || strings.HasPrefix(other, target+"/") {
+				v.Discard = "twin-target-collides-with-a-referrer"
+				return
+			}
+		}
+	}
 	if strings.Contains(c.Spelling, "\\") {
 		v.Label("backslash-in-name")
 	}
@@ -436,8 +473,12 @@ func judgeC15(c c15Case) (v core.Verdict) {
 	for _, e := range c.Exts {
 		allowed[canon+e] = true
 		allowed[c.referrer()+e] = true
-		if c.Hop != "" {
+		if c.Hop != "" || c.Twin {
 			allowed[c15Entry+e] = true
+		}
+		if c.Twin {
+			allowed[c15TwinRef+e] = true
+			allowed[c.twinCanonical(c.Spelling)+e] = true
 		}
 	}
 	check := func(spelling, sub string) (trace []traceEv, ok bool) {
@@ -460,7 +501,7 @@ func judgeC15(c c15Case) (v core.Verdict) {
 				v.Failf("%s: %s received the path %q, which is not a clean absolute slash path (trace %v)", desc, ev.Op, ev.Path, trace)
 				return trace, false
 			}
-			bareCacheKey := (ev.Op == "Get" || ev.Op == "Put") && (ev.Path == canon || ev.Path == c.referrer() || c.Hop != "" && ev.Path == c15Entry)
+			bareCacheKey := (ev.Op == "Get" || ev.Op == "Put") && (ev.Path == canon || ev.Path == c.referrer() || (c.Hop != "" || c.Twin) && ev.Path == c15Entry || c.Twin && (ev.Path == c15TwinRef || ev.Path == c.twinCanonical(c.Spelling)))
 			if !allowed[ev.Path] && !bareCacheKey {
 				v.Failf("%s: %s received %q; expected the canonical name %q (or the referrer) plus a configured extension (trace %v)", desc, ev.Op, ev.Path, canon, trace)
 				return trace, false
@@ -493,8 +534,16 @@ func judgeC15(c c15Case) (v core.Verdict) {
 			v.Failf("%s: failed although the target exists at the canonical path: %s (trace %v)", desc, out, trace)
 			return trace, false
 		}
-		if out.Out != c.wantOut() {
-			v.Failf("%s: rendered %q, want %q", desc, out.Out, c.wantOut())
+		wantOut := c.wantOut()
+		if c.Twin {
+			second := "TWIN"
+			if c.twinCanonical(spelling) == canon {
+				second = "TARGET"
+			}
+			wantOut = "[TARGET]|[" + second + "]"
+		}
+		if out.Out != wantOut {
+			v.Failf("%s: rendered %q, want %q", desc, out.Out, wantOut)
 			return trace, false
 		}
 		for _, n := range names {
